@@ -506,7 +506,7 @@ func oracleC08(c fw.Case) *fw.OracleFailure {
 		n := int(be(body[0:2]))
 		rest := body[3:]
 		var parts []string
-		valid := len(body) >= 31
+		valid := true
 		for i := 0; i < n && valid; i++ {
 			if len(rest) < 2 || len(rest) < 2+int(be(rest[0:2])) {
 				valid = false
